@@ -25,15 +25,56 @@ def replay_call(func, args):
         return repr(e)
 
 
+def windowed_sweep(rep, v, swept):
+    """Extended-family functions have a finite window (props/h23.py WINDOWED): after a counterexample the shard's
+    window is swept concretely (no CrossHair) and EVERY failing argument tuple is reported, so that the case ids
+    are stable (they do not depend on the witness z3 happened to pick).  -> True when something was reported."""
+    import importlib
+    h = importlib.import_module("props.h23")
+    if v.func not in h.WINDOWED:
+        return False
+    pinned = {k: val for k, val in chstubs_parse_pin(v.pin).items() if k != "f"}
+    key = (v.func, tuple(sorted(pinned.items())))
+    if key in swept:
+        return True
+    swept.add(key)
+    bad = h.sweep(v.func, pinned)
+    for args, res in bad:
+        rep.violation(f"{v.func}({', '.join(map(str, args))})",
+                      f"subscript case {v.func}{tuple(args)} [{h.describe(v.func, args)}]: real generate() does not reject / select correctly (harness returned {res})",
+                      {"function": v.func, "args": list(args), "crosshair": v.detail})
+    return bool(bad)
+
+
+def chstubs_parse_pin(pin):
+    from vk.chstubs import _parse_pin
+    return _parse_pin(pin)
+
+
 def main():
     a = std_args(PROP)
     rep = Report(PROP, a.tier, "model_checking", a.seed)
+    thorough = a.tier == "thorough"
     spec = [("vec", f"n={n}") for n in (1, 2, 3)] + [("mat", ""), ("scalar", ""), ("nested", ""), ("lhs", "")]
     spec += [("slice2", f"n={n},a={x}") for n in (1, 2, 3) for x in range(-3, n + 4)]
     spec += [("forloop", f"n={n},a={x}") for n in (2, 3) for x in range(-2, n + 3)]
     spec += [("reach_vec", "n=2")]
-    if a.tier == "thorough":
+    if thorough:
         spec += [("slice3", "")]
+    # -- extended family (see the second half of props/h23.py); the pin's f=<function> only selects which templates
+    #    the shard parses.  Symbolically executed (traced) shards first, they are the long ones.
+    ext = [("mcolon", ""), ("derv", ""), ("psub", "kind=0"), ("reject", "")]
+    ext += [("matn", f"sh={k}") for k in ((0, 1, 2, 3) if thorough else (0,))]
+    # window families: every literal is forked to a concrete value (Python range / numpy.arange / CasADi constants
+    # need real integers), generate() then runs untraced
+    ext += [("mslice", f"pos={p},s={s}") for p in (0, 1) for s in ((0, 1, 2, 3) if thorough else (0, 2))]
+    ext += [("slice3n", f"n={n}") for n in ((1, 2, 3, 4) if thorough else (3, 4))]
+    ext += [("forexpr", f"n={n}") for n in ((1, 2, 3, 4) if thorough else (1, 2, 3))]
+    ext += [("forstep", f"n={n}") for n in ((2, 3, 4) if thorough else (2, 3))]
+    ext += [("formix", f"nest={ne},pos={p}") for ne in (0, 1) for p in (0, 1)]
+    ext += [("forscalar", ""), ("forfunc", "")]
+    ext += [("psub", f"kind={k}") for k in ((1, 2, 3, 4, 5, 6) if thorough else (1, 4, 6))]
+    spec = [(f, (f"f={f}," + pin).rstrip(",")) for f, pin in ext] + spec
     ct = 150 if a.tier == "quick" else 600
     vs = chx.run(HARNESS, spec, jobs=a.jobs, cond_timeout=ct, path_timeout=30)
     reach = [v for v in vs if v.func.startswith("reach_")]
@@ -43,7 +84,10 @@ def main():
         rep.coverage["reachability_witness"] = v.kind in ("counterexample",)
         if v.kind != "counterexample":
             rep.harness_error(f"reachability twin {v.func} did not produce a witness: {v.kind}")
+    swept = set()
     for v in vs:
+        if v.kind in ("counterexample", "exception") and windowed_sweep(rep, v, swept):
+            continue
         if v.kind in ("counterexample", "exception"):
             argtxt = chx.call_args(v.detail) or ""
             try:
@@ -64,9 +108,21 @@ def main():
     cov["samples"] = [{"function": v.func, "pin": v.pin, "verdict": v.kind, "secs": round(v.secs, 1)} for v in vs][:12]
     cov["exhaustive"] = all(v.kind == "confirmed" for v in vs)
     cov["functions_encoded"] = ["casadi.generator.generate -> Generator.get_component, get_indexed_symbol, get_integer (symbolically executed by CrossHair)"]
-    cov["bounds"] = ("scalar subscripts x[i], A[i,j], q[i].w[j], s[i], lhs x[i]: ALL integers (unbounded); slices a:b window [-3, n+3], n in 1..3; "
-                     "for-ranges window [-2, n+2], n in 2..3; thorough adds stepped slices a:s:b on size 5")
-    rep.assumptions += ["values are realised only at the CasADi (SWIG) boundary and in numpy.arange", "error-message formatting of symbolic values is cut (not the subject)",
+    cov["bounds"] = ("scalar subscripts x[i], A[i,j] (2x3; 1x1" + ("; 1x3, 3x1, 2x2" if thorough else "") + "), q[i].w[j], s[i], lhs x[i], der(x[i]), x[k] with k an Integer parameter, "
+                     "A[:,r], A[r,:], s[i,j], x[i,j], A[i,j,i]: ALL integers (unbounded); slices a:b window [-3, n+3], n in 1..3; strided slices a:s:b, s in 1..3, window [-1, n+2]x[-1, n+4], "
+                     + ("n in 1..4 (plus size 5, window [-2, 7])" if thorough else "n in 3..4")
+                     + "; matrix slices A[a:s:b, r], A[r, a:s:b] on 2x3, a in [0, d+1], b in [0, d+2], r in [0, 4], "
+                     + ("s in 1..3 and unstrided" if thorough else "s = 2 and unstrided")
+                     + "; slices / several subscripts on a scalar and too many subscripts (7 shapes, slice bounds in [-2, 4]); "
+                     "subscripts computed from an Integer parameter k in 0..5 and a literal d in 0..4: " + ("x[k+d], x[k-d], x[lit+lit], x[k:k+d], x[d:k], x[2k-d]" if thorough else "x[k+d], x[k:k+d], x[2k-d]")
+                     + "; for-ranges window [-2, n+2], n in 2..3; for-equations x[e(i)] = i with e in {c-i, i+c, c*i, 2i-c, c-2i}, c in 0..n+4, 1 <= a <= b <= 3, n in "
+                     + ("1..4" if thorough else "1..3") + "; stepped loop ranges a:s:b, s in 1..3, a in 0..n+2, b in a..n+3, n in " + ("2..4" if thorough else "2..3")
+                     + "; loops over either dimension of A[2,3] and of q[2].w[3] (A[i,k], A[k,i], k in 0..4, range within 0..4; A[c-i,k], A[k,c-i], c in 2..5); "
+                     "loop-variable subscripts on a scalar (s[i], s[c-i], s[i+c], range within 0..3); for-statements in a function algorithm (x[i] range within 0..5, x[c-i])"
+                     + ("; thorough adds stepped slices a:s:b on size 5" if thorough else ""))
+    rep.assumptions += ["values are realised only at the CasADi (SWIG) boundary and in numpy.arange",
+                        "window families (strided and matrix slices, for-equations / for-statements, parameter-expression subscripts): slice bounds, loop bounds and literals inside subscript expressions are forked to concrete values over the stated window before generate() is called (the real code passes them to Python range / numpy.arange / CasADi constants immediately) and generate() then runs untraced; CrossHair/z3 enumerate the window",
+                        "two loop-dependent subscripts on one reference (A[i,i]) are not in the family: pymoca accepts them but produces a residual with a free loop variable (not a range question)", "error-message formatting of symbolic values is cut (not the subject)",
                         "an empty range a:b with b<a may be rejected or give the empty selection"]
     return rep.finish()
 
